@@ -3,6 +3,7 @@ package core
 import (
 	"fmt"
 	"io"
+	"strings"
 )
 
 func write(w io.Writer, data []byte) (int64, error) {
@@ -48,4 +49,17 @@ func appendSprintf(w io.Writer, format string, args ...interface{}) int64 {
 
 func writeNothing() (int64, error) {
 	return 0, nil
+}
+
+var attributeEscaper = strings.NewReplacer(
+	`&`, "&amp;",
+	`<`, "&lt;",
+	`>`, "&gt;",
+	`"`, "&#34;",
+)
+
+// escapeAttribute makes a value safe to be used inside of a double-quoted
+// attribute so that it cannot end the attribute or the tag.
+func escapeAttribute(value string) string {
+	return attributeEscaper.Replace(value)
 }
